@@ -1,4 +1,5 @@
 import Norad.Lemmas.C07
+import Norad.Generated.FileNameConsts
 /-!
 # C07 — assigned file names are portable, unique ignoring case, and stable (function level)
 
@@ -131,9 +132,18 @@ theorem fileName_affixes_partial {U : Char → Bool} {lower : Str → Str} {name
     · subst hn; rw [hp]
       exact layer_prefix_kept (by simp [isDotSp, hc1, hc2]) k
 
-/- OPEN (not proved, not counted): the exact guard. For every `U` that is false on `.` and space,
-   layerPrefix <+: p  ↔  ¬ (name.take 248).all isDotSp   (the first 248 characters are not all periods/spaces).
-   The driver uses exactly this condition as the feature `dotsp-name` of the recorded finding. -/
+/-- **the exact guard** (for every `U` that is false on period and space, as `char::is_uppercase` is):
+    a layer directory carries `glyphs.` iff the longest character prefix of the layer name within 248
+    **bytes** contains something else than periods and spaces.  (Bytes, not characters: 247 periods
+    followed by a 4-byte character lose the prefix, the character is clipped away.)  The driver uses
+    exactly this condition as the feature `dotsp-name` of the recorded finding. -/
+theorem fileName_affixes_layer_iff {U : Char → Bool} {lower : Str → Str} {name p : Str}
+    {accept : Nat → Str → Bool} (hU : U '.' = false ∧ U ' ' = false)
+    (h : userNameToFileName U lower name layerPrefix [] accept = some p) :
+    HasAffixes layerPrefix [] p ↔ (takeBytes 248 name).all isDotSp = false := by
+  obtain ⟨k, _, hp, _, _⟩ := fileName_some h
+  rw [hp, ← layer_prefix_iff hU name k]
+  exact ⟨fun h => h.1, fun h => ⟨h, List.nil_suffix⟩⟩
 
 /-- …and even then the six letters `glyphs` are there -/
 theorem fileName_layer_glyphs {U : Char → Bool} {lower : Str → Str} {name p : Str}
@@ -208,6 +218,72 @@ theorem fileName_len_255_counterexample :
     ∃ p, userNameToFileName (fun _ => false) id (List.replicate 250 'a') [] glifSuffix
         (fun k _ => k == 1) = some p ∧ ValidName (List.replicate 250 'a') ∧ ¬ Len255 p := by
   refine ⟨List.replicate 250 'a' ++ ['0', '1'] ++ glifSuffix, ?_, ?_, ?_⟩ <;> decide +kernel
+
+/-! ## source-level tie (DESIGN 3.5)
+
+`Generated.FileNameConsts` is regenerated from `src/util.rs` of the checked tree on every run
+(`tools/extract_filename_consts.py`).  The theorems below are therefore about what the code says
+**now**: a changed constant, list entry, counter range or wrapper affix makes one of them fail (an
+undischarged obligation), and the search then looks for the concrete name. -/
+
+/-- the model's constants are the ones in the source -/
+theorem source_consts_match_model :
+    Generated.FileNameConsts.maxLen = maxLen ∧ Generated.FileNameConsts.numberLen = numberLen := by
+  decide
+
+/-- `SPECIAL_ILLEGAL` of the source and the model's list have the same members (the code only tests
+    membership, so order and repetition are a harmless rewrite) -/
+theorem source_illegal_matches_model :
+    (∀ c ∈ Generated.FileNameConsts.illegal, c ∈ illegal) ∧
+    (∀ c ∈ illegal, c ∈ Generated.FileNameConsts.illegal) := by decide
+
+/-- `SPECIAL_RESERVED` of the source and the model's list have the same members -/
+theorem source_reserved_matches_model :
+    (∀ w ∈ Generated.FileNameConsts.reserved, w ∈ reserved) ∧
+    (∀ w ∈ reserved, w ∈ Generated.FileNameConsts.reserved) := by decide
+
+/-- the counter loop of the model (`tryCounters … 99 1`) is the source's range `1..100`: the whole
+    function written with the extracted bounds -/
+theorem source_counter_range (U : Char → Bool) (lower : Str → Str) (name pre suf : Str)
+    (accept : Nat → Str → Bool) :
+    userNameToFileName U lower name pre suf accept =
+      if accept 0 (lower (body U name pre suf ++ suf)) then some (body U name pre suf ++ suf)
+      else tryCounters lower accept (counterBase U name pre suf) suf
+        (Generated.FileNameConsts.counterHi - Generated.FileNameConsts.counterLo)
+        Generated.FileNameConsts.counterLo := by
+  rw [fileName_unfold]; rfl
+
+/-- every counter in the source's range has exactly `NUMBER_LEN` digits (`{:0>2}` never widens) -/
+theorem source_counter_fits_number_len :
+    1 ≤ Generated.FileNameConsts.counterLo ∧
+    Generated.FileNameConsts.counterHi ≤ 10 ^ Generated.FileNameConsts.numberLen := by decide
+
+/-- the affix pairs the two wrappers of the source pass are exactly the pairs the portability
+    theorems (`Wrapper`) are about -/
+theorem source_wrappers_are_covered :
+    Generated.FileNameConsts.glyphAffixes = ([], glifSuffix) ∧
+    Generated.FileNameConsts.layerAffixes = (layerPrefix, []) ∧
+    Wrapper Generated.FileNameConsts.glyphAffixes.1 Generated.FileNameConsts.glyphAffixes.2 ∧
+    Wrapper Generated.FileNameConsts.layerAffixes.1 Generated.FileNameConsts.layerAffixes.2 := by
+  decide
+
+/-- independent of the model: what the source bans / reserves covers the specification's tables, and
+    the source's limit is the specification's 255 -/
+theorem source_tables_cover_spec :
+    (∀ c ∈ illegalChars, c ∈ Generated.FileNameConsts.illegal) ∧
+    (∀ w ∈ deviceNames, w ∈ Generated.FileNameConsts.reserved) ∧
+    Generated.FileNameConsts.maxLen ≤ 255 := by decide
+
+/-- the length theorem restated with the source's constants -/
+theorem source_fileName_len {U : Char → Bool} {lower : Str → Str} {name pre suf p : Str}
+    {accept : Nat → Str → Bool} (hs : utf8Len suf ≤ Generated.FileNameConsts.maxLen)
+    (h : userNameToFileName U lower name pre suf accept = some p) :
+    utf8Len p ≤ Generated.FileNameConsts.maxLen + Generated.FileNameConsts.numberLen ∧
+    (suf = [] → utf8Len p ≤ Generated.FileNameConsts.maxLen) := by
+  have h1 := source_consts_match_model
+  have := fileName_len_255_partial (by rw [h1.1] at hs; exact hs) h
+  rw [h1.1, h1.2]
+  exact ⟨this.1, fun hsuf => this.2 (Or.inr hsuf)⟩
 
 /-! ## non-vacuity: the hypotheses are satisfiable and the conclusions not trivially true -/
 
